@@ -39,3 +39,11 @@ func writeEnumReplay(t testing.TB, prop, test, caseID, msg string) string {
 
 // onlyCase returns the case selected by a replay, or "".
 func onlyCase() string { return os.Getenv("VERIF_ONLY_CASE") }
+
+// closeBounded calls Close() without ever blocking the test beyond the wedge
+// bound; it reports whether Close() returned.
+func closeBounded(c interface{ Close() }) bool {
+	done := make(chan struct{})
+	go func() { c.Close(); close(done) }()
+	return waitWedge(done)
+}
